@@ -4,16 +4,28 @@ package block
 
 import "sync"
 
-// Send gates: scheduler-driven checks build retriever.go/store.go from overlay copies in which every send into the
-// sync loop's input channels is preceded by m.verifSendGate(<channel>), so that the harness decides when a producer
-// may hand an event to the sync loop. Without a registered gate this is a no-op.
-var verifSendGates sync.Map // *Manager -> func(string)
+// Event diversion: scheduler-driven checks build retriever.go/store.go from overlay copies in which every send into
+// the sync loop's input channels first offers the event to m.verifDivertHeader / m.verifDivertData. When the harness
+// has registered a diverter, the event goes into a harness-side FIFO (modelling the buffered channel) and the harness
+// later delivers it into the real channel, choosing the order between the two channels itself (Go's select would pick
+// at random). Without a registered diverter the original send happens.
+var verifDiverts sync.Map // *Manager -> func(h *NewHeaderEvent, d *NewDataEvent) bool
 
-func (m *Manager) VerifSetSendGate(f func(ch string)) { verifSendGates.Store(m, f) }
-func (m *Manager) VerifClearSendGate()                { verifSendGates.Delete(m) }
+func (m *Manager) VerifSetDivert(f func(h *NewHeaderEvent, d *NewDataEvent) bool) {
+	verifDiverts.Store(m, f)
+}
+func (m *Manager) VerifClearDivert() { verifDiverts.Delete(m) }
 
-func (m *Manager) verifSendGate(ch string) {
-	if f, ok := verifSendGates.Load(m); ok {
-		f.(func(string))(ch)
+func (m *Manager) verifDivertHeader(ev NewHeaderEvent) bool {
+	if f, ok := verifDiverts.Load(m); ok {
+		return f.(func(*NewHeaderEvent, *NewDataEvent) bool)(&ev, nil)
 	}
+	return false
+}
+
+func (m *Manager) verifDivertData(ev NewDataEvent) bool {
+	if f, ok := verifDiverts.Load(m); ok {
+		return f.(func(*NewHeaderEvent, *NewDataEvent) bool)(nil, &ev)
+	}
+	return false
 }
